@@ -235,7 +235,7 @@ fn main() {
     let mut rng = Rng::new(a.seed);
     let mut run = Run::new(&a.out);
     quiet_panics();
-    let (epochs, batch, per_tree, synthetic_per_tree) = if a.thorough() { (60usize, 8usize, 40usize, 12usize) } else { (14, 3, 8, 4) };
+    let (epochs, batch, per_tree, synthetic_per_tree) = if a.thorough() { (60usize, 8usize, 40usize, 12usize) } else { (14, 3, 8, 6) };
     run.rule = format!(
         "{epochs} training epochs x {batch} trees sampled by the real Blueprint::tree from an initially empty Profile with the stand-in abstraction, traverser alternating; profile updated as Blueprint::solve does. Search oracle: textbook estimator in f64 on every information set of every tree (tolerance {TOL}·Σ|terms|). Correspondence: every tree dumped, with its multi-node information sets, its largest information set and a random sample (up to {per_tree} per tree). An information set is non-trivial when Σ|terms| > 0 and it has >= 2 actions; distinct by (epoch, tree, bucket id). Deals come from the code's own thread_rng (every third tree uses the forced draw index from VERIF_SEED); each dumped tree is self-contained in ops.txt"
     );
@@ -290,7 +290,13 @@ fn main() {
         // multi-node sets (walker nodes sharing an action menu), because real multi-node
         // information sets only arise below depth 16 and are rare
         {
-            let tree = std::sync::Arc::new(bp.verif_tree());
+            let mut tree = std::sync::Arc::new(bp.verif_tree());
+            for _ in 0..5 {
+                if tree.all().len() <= 4000 {
+                    break;
+                }
+                tree = std::sync::Arc::new(bp.verif_tree());
+            }
             let d = { dump(&tree, &profile.read().unwrap()) };
             let (v, va) = d.values();
             let n = d.parent.len();
